@@ -322,12 +322,6 @@ func c15RunLit(ctx *Ctx, c c15LitCase) {
 	}
 }
 
-func c13GoType15(x any) string {
-	if a, ok := x.(system.Any); ok {
-		return a.Name()
-	}
-	return typeName(x)
-}
 
 // ---------------------------------------------------------------------------
 // 3. System ↔ FHIR primitive
